@@ -214,7 +214,7 @@ func c05Short(s string) string {
 }
 
 func runC05(c *Ctx) {
-	c.res.Rule = "QR: versions x 4 levels (quick {1,2,5,7,10,14,21,27,33,40}, thorough all 40, several masks): every single codeword position of every block with a random wrong value; " +
+	c.res.Rule = "QR: versions x 4 levels (quick {1,2,5,7,10,14,21,27,33,40} plus every other version at one level with full-capacity fault sets only, thorough all 40, several masks): every single codeword position of every block with a random wrong value; " +
 		"20 random fault sets of exactly floor(ec/2) per block in all blocks at once; floor(ec/2)+1 in one block counted only; format info: every <=3-bit pattern in one copy x random <=3 in the other on symbols, " +
 		"all pairs of <=3-bit patterns on the decode function for all 32 words; version info: every <=3-bit pattern for 34 words on the function and on symbols v7/23/40 (thorough: all). " +
 		"Data Matrix: all 30 sizes, same (a)(b)(c). Faults are module flips at placement positions probed from the real encoders. non-trivial = distinct oracle input / op line"
@@ -320,6 +320,15 @@ func c05QRSymbols(c *Ctx) {
 		mask int
 	}
 	var syms []sym
+	inList := map[int]bool{}
+	for _, v := range versions {
+		inList[v] = true
+	}
+	for v := 1; v <= 40; v++ {
+		if !inList[v] {
+			syms = append(syms, sym{v, cqrLevels[v%4], -1})
+		}
+	}
 	for _, v := range versions {
 		for li, ec := range cqrLevels {
 			syms = append(syms, sym{v, ec, -1})
@@ -352,6 +361,10 @@ func c05QRSymbols(c *Ctx) {
 	}
 	var tasks []task
 	for _, q := range qs {
+		if !inList[q.version] {
+			tasks = append(tasks, task{q, -1, 0})
+			continue
+		}
 		for lo := 0; lo < len(q.cw); lo += 128 {
 			hi := lo + 128
 			if hi > len(q.cw) {
